@@ -32,7 +32,8 @@ type Frame struct {
 	visits    map[*ssa.BasicBlock]int
 	forks     map[ssa.Instruction]int
 	// merge arm bookkeeping
-	stopAt *ssa.BasicBlock
+	stopAt  *ssa.BasicBlock
+	stopped bool
 }
 
 func (f *Frame) clone() *Frame {
@@ -102,6 +103,7 @@ type State struct {
 	open     *OpenState
 	ghost    map[string]*Term
 	path     []string // decisions (for witnesses)
+	inArm    int // > 0 while executing one arm of a diamond that is being merged
 	dead     bool
 	finished bool
 }
